@@ -338,6 +338,12 @@ theorem c06_src_model_var (v : Int) (k : Nat) :
 /-- `store_coins` uses a 4-bit length prefix (`Grams = VarUInteger 16`). -/
 theorem c06_src_coins : Generated.coinsLenBits_sideOk ∧ Generated.coinsLenBits = 4 := ⟨trivial, rfl⟩
 
+/-- concrete values of the regenerated length computation at the byte boundaries of both signs (the hypothesis `0 ≤ v` of
+`c06_src_varuint_len` is met by 255, 256). -/
+example : Generated.varIntByteLen 127 = 1 ∧ Generated.varIntByteLen 128 = 2 ∧ Generated.varIntByteLen (-128) = 1 ∧
+    Generated.varIntByteLen (-129) = 2 ∧ Generated.varUintByteLen 255 = 1 ∧ Generated.varUintByteLen 256 = 2 := by
+  decide +kernel
+
 end Src
 
 end TonVerif.Properties.C06
